@@ -163,10 +163,15 @@ def run():
     from pyvc.engine import Engine
 
     c.engine = Engine()
-    quals = token_quals(c.engine)
-    cfg = {q: {"gen": gen, "also": ["vsg.tokens.create"], "n_search": 3000} for q in quals}
+    quals = token_quals(c.engine) + [
+        "vsg.vhdlFile.utils.convert_token_list_to_string",
+        "vsg.vhdlFile.vhdlFile.split_on_carriage_return",
+        "vsg.vhdlFile.vhdlFile.vhdlFile.get_lines",
+        "vsg.vhdlFile.classify.whitespace.classify",
+    ]
+    cfg = {q: {"gen": gen, "also": ["vsg.tokens.create"], "n_search": 3000} for q in quals if q.startswith("vsg.tokens.")}
     c.deductive(quals, cfg)
-    c.crosscheck(quals, cfg, n=150 if c.tier == "quick" else 1500)
+    c.crosscheck([q for q in quals if q in cfg], cfg, n=150 if c.tier == "quick" else 1500)
 
     # bounded (a): exhaustive join(create(s)) == s
     maxlen = 5 if c.tier == "quick" else 6
